@@ -95,6 +95,45 @@ package stgutg
 //@ ensures creds: result.AuthenticationSubs.PermanentKey != nil && result.AuthenticationSubs.PermanentKey.PermanentKeyValue == K && result.AuthenticationSubs.Opc != nil && result.AuthenticationSubs.Opc.OpcValue == OPC && result.AuthenticationSubs.Milenage != nil && result.AuthenticationSubs.Milenage.Op != nil && result.AuthenticationSubs.Milenage.Op.OpValue == OP
 //@ ensures fresh: result.ULCount.Get() == 0 && result.DLCount.Get() == 0 && result.AmfUeNgapId == 0
 
+// The same for a configured IMSI of 14 digits (the width of the SUPI is the width of the IMSI).
+//@ func CreateUE
+//@ prop C16
+//@ behavior len14
+//@ shape imsi 14
+//@ requires digits: vc.Forall(0, 14, func(i int) bool { return '0' <= imsi[i] && imsi[i] <= '9' })
+//@ requires index: 0 <= ueNumber && ueNumber < 10000
+//@ requires room: strspec.Value(imsi)+ueNumber < 100000000000000
+//@ ensures nonnil: result != nil
+//@ ensures supi: result.Supi == "imsi-"+strspec.FormatDec(strspec.Value(imsi)+ueNumber, 14)
+//@ ensures ranid: result.RanUeNgapId == int64((strspec.Value(imsi)+ueNumber)%10000)
+//@ ensures algs: result.CipheringAlg == 0 && result.IntegrityAlg == 2
+
+// The same for a configured IMSI of 10 digits (the width of the SUPI is the width of the IMSI).
+//@ func CreateUE
+//@ prop C16
+//@ behavior len10
+//@ shape imsi 10
+//@ requires digits: vc.Forall(0, 10, func(i int) bool { return '0' <= imsi[i] && imsi[i] <= '9' })
+//@ requires index: 0 <= ueNumber && ueNumber < 10000
+//@ requires room: strspec.Value(imsi)+ueNumber < 10000000000
+//@ ensures nonnil: result != nil
+//@ ensures supi: result.Supi == "imsi-"+strspec.FormatDec(strspec.Value(imsi)+ueNumber, 10)
+//@ ensures ranid: result.RanUeNgapId == int64((strspec.Value(imsi)+ueNumber)%10000)
+//@ ensures algs: result.CipheringAlg == 0 && result.IntegrityAlg == 2
+
+// The same for a configured IMSI of 6 digits (the width of the SUPI is the width of the IMSI).
+//@ func CreateUE
+//@ prop C16
+//@ behavior len6
+//@ shape imsi 6
+//@ requires digits: vc.Forall(0, 6, func(i int) bool { return '0' <= imsi[i] && imsi[i] <= '9' })
+//@ requires index: 0 <= ueNumber && ueNumber < 10000
+//@ requires room: strspec.Value(imsi)+ueNumber < 1000000
+//@ ensures nonnil: result != nil
+//@ ensures supi: result.Supi == "imsi-"+strspec.FormatDec(strspec.Value(imsi)+ueNumber, 6)
+//@ ensures ranid: result.RanUeNgapId == int64((strspec.Value(imsi)+ueNumber)%10000)
+//@ ensures algs: result.CipheringAlg == 0 && result.IntegrityAlg == 2
+
 // ---- C19: fail-stop ----
 // Driver-level contract cases: the N2 association is ghost I/O (assumed contracts of
 // (*sctp.SCTPConn).Read/Write: success, or an error that raises the ghost flag io.fault; ngap.Decoder
